@@ -76,6 +76,11 @@ def impl_case(args) -> dict:
                      ("abs-parallel", proj, str(proj), [], ["--parallel"]), ("rel-from-parent-parallel", base, "proj", [], ["--parallel"]),
                      ("global-config-abs", proj, str(proj), ["--config", ".thailint.yaml"], []),
                      ("global-config-dot", proj, ".", ["--config", ".thailint.yaml"], [])]
+        # the spellings themselves, and some that are only resolved (never linted): what the operating system makes of them
+        extra = [(proj, "./"), (proj, "src/.."), (proj, "src/./../."), (proj / "src", "../src/.."), (base, "proj//"), (base, "./proj/src/../"),
+                 (other, str(proj) + "/./src/.."), (proj / "src", "..//")]
+        out["spellings"] = [{"cwd": str(Path(cwd).resolve()), "target": target, "real": os.path.realpath(os.path.join(cwd, target))}
+                            for cwd, target in [(c_, t_) for _l, c_, t_, _a, _b in spellings] + extra]
         for c in cmds:
             for label, cwd, target, pre, post in spellings:
                 if post and c in ("file-placement",):
@@ -184,6 +189,19 @@ def run(tier: str, seed: int, st: core.ProofStatus) -> core.Result:
         impls = core.pmap(impl_case, work, procs=16)
     finally:
         shutil.rmtree(root, ignore_errors=True)
+    # every spelling resolves, in the Lean model, to the path the operating system resolves it to
+    drv_sp = core.Driver()
+    for im in impls:
+        for sp in im.get("spellings", []):
+            res.evaluations += 1
+            segs = sp["target"].split("/")
+            m = drv_sp.call({"prop": PROP, "op": "resolve", "cwd": [x for x in sp["cwd"].split("/") if x], "absolute": sp["target"].startswith("/"), "segs": segs})
+            want = [x for x in sp["real"].split("/") if x]
+            res.bump("spelling_resolution", "checked")
+            if m["resolved"] != want:
+                res.disagreements.append(core.Disagreement(case=sp, impl=want, model=m["resolved"], spec=None, property_fails=False,
+                                                           note=f"spelling {sp['target']!r} from {sp['cwd']!r}: the model resolves it to {'/'.join(m['resolved'])}, the system to {sp['real']}"))
+    drv_sp.close()
     base = {(r["cmd"]): r for r in impls[0]["runs"] if r["spelling"] == "dot"}
     for (i, p, cs, _), im in zip(work, impls):
         if im["errors"]:
